@@ -108,6 +108,14 @@ var bareCfg = zapcore.EncoderConfig{EncodeTime: zapcore.EpochNanosTimeEncoder, E
 
 var cfgRepr = ref.Repr{Time: ref.TEpochNanos, Dur: ref.DNanos, Ordered: true}
 
+// scribble overwrites a field slice after it was handed to With / Fields: the logger derived from it
+// keeps the fields it was given.
+func scribble(fs []zapcore.Field) {
+	for i := range fs {
+		fs[i] = zap.String("scribbled-over-after-the-call", "x")
+	}
+}
+
 // userWrap is the kind of decorator users write: it registers itself for enabled entries and forwards
 // Write and With to the core it wraps.
 type userWrap struct{ zapcore.Core }
@@ -246,7 +254,9 @@ func runProgram(r *ev.Run, id string, i int) {
 			if fromSugar {
 				n.sug = par.sug.WithOptions(zap.Fields(segZap(s)...))
 			} else {
-				n.log = base.WithOptions(zap.Fields(segZap(s)...))
+				fs := segZap(s)
+				n.log = base.WithOptions(zap.Fields(fs...))
+				scribble(fs) // the slice was the caller's and is reused for something else
 			}
 		case k == 3 || k == 4: // WithLazy
 			s := newSeg(true)
@@ -273,7 +283,9 @@ func runProgram(r *ev.Run, id string, i int) {
 				}
 				n.sug = par.sug.With(args...)
 			} else {
-				n.log = base.With(segZap(s)...)
+				fs := segZap(s)
+				n.log = base.With(fs...)
+				scribble(fs)
 			}
 		}
 		if muted {
